@@ -253,8 +253,7 @@ impl Scenario for PoolScenario {
         let kind = self.kind;
         let cfg = cx.src.chan("cfg");
         let nthreads = 2 + cfg.biased_zero(2, 1, 3) as usize;
-        let den = *cfg.pick(&[2u64, 3, 5, 10]);
-        let e1cfg = E1Cfg { max_steps: 6000, switch_num: 1, switch_den: den };
+        let e1cfg = e1::draw_cfg(&cfg, 6000);
         let (pool, desc) = build_pool(kind, &cfg);
         cx.ev(format!("pool {} {} threads={}", kind.name(), desc, nthreads));
         let secure_preseed_extra = if kind == Kind::Secure { 4 } else { 0 };
@@ -612,7 +611,7 @@ impl Scenario for SecureSpill {
             g.1 = v;
         });
         let sched = cx.src.chan("sched");
-        let res = e1::run_threads(&sched, &E1Cfg { max_steps: 100_000, switch_num: 0, switch_den: 1 }, vec![body], None);
+        let res = e1::run_threads(&sched, &E1Cfg { max_steps: 100_000, switch_num: 0, switch_den: 1, ..Default::default() }, vec![body], None);
         let g = out.lock().unwrap();
         for e in &g.0 {
             cx.ev(e);
